@@ -60,7 +60,12 @@ def _split_top(s):
 class Source:
     def __init__(self, relpath):
         self.relpath = relpath
-        self.path = os.path.join(REPO, relpath)
+        if relpath.startswith("verif:"):
+            # shared oracle text kept under /verif/contracts (not repository code)
+            from .common import CONTRACTS
+            self.path = os.path.join(CONTRACTS, relpath[len("verif:"):])
+        else:
+            self.path = os.path.join(REPO, relpath)
         if not os.path.exists(self.path):
             raise Undecided("lost anchor: %s missing" % relpath)
         self.text = read(self.path)
